@@ -17,7 +17,8 @@ theorems say "fresh writer with the metadata list the old one had" and, for hist
 Mirrors: `asIs` = the code before the repairs of F10 (in-place `Reset` of committed row groups
 clears `columnPath` / `w.sortingColumns` arrays the live writer shares), F24 (the retained plain
 fallback buffer keeps abandoned rows) and F25 (page statistics of an empty byte string read the
-nil-ness of the column buffer's backing array, which Reset keeps allocated); `fixed` = the
+nil-ness of the column buffer's backing array, which Reset keeps allocated) and F26 (the live
+column chunk's bloom filter length is not cleared); `fixed` = the
 repaired code; `current` = the library now. `observe M` is the observation for mirror `M`'s code. -/
 
 namespace PqModel.Props.C17
@@ -55,6 +56,19 @@ theorem reset_equiv_fixed_fresh (cfg : Cfg) (ops : List Op) (h : ∀ op ∈ ops,
 
 example : ∀ op ∈ [Op.write 1 [], .flush (.failed 3 [] 0), .close (.committed 9 [1] [1]) false 12, .reset],
     Op.isSetKV op = false := by decide
+
+/-- **reset_equiv**, the property for the library as it stands (`current` mirror, tied to the code
+by the L2 `mirror` sub-check): every reachable state resets to a fresh writer's observation,
+up to the metadata list the code keeps on purpose. -/
+theorem reset_equiv (cfg : Cfg) (ops : List Op) :
+    observe current (resetWith current (history current cfg ops)) =
+      observe current (initWith cfg (history current cfg ops).metadata) :=
+  reset_equiv_fixed cfg ops
+
+/-- ... and for histories without `SetKeyValueMetadata`, exactly a fresh writer's. -/
+theorem reset_equiv_fresh (cfg : Cfg) (ops : List Op) (h : ∀ op ∈ ops, Op.isSetKV op = false) :
+    observe current (resetWith current (history current cfg ops)) = observe current (init cfg) :=
+  reset_equiv_fixed_fresh cfg ops h
 
 /-! ### the code before the repairs violates the property -/
 
@@ -108,6 +122,14 @@ theorem reset_equiv_asIs_false_F25 :
       [.write 1 [{ wrote ⟨⟨0, 1⟩, ⟨0, 1⟩, ⟨0, 1⟩, ⟨0, 1⟩, 2, 0, 2, 0, 0⟩ [1] with bufAllocated := true }]])) ≠
       observe asIs (init cfgA) := by decide
 
+/-- F26: the bloom filter length recorded for the last row group of the previous file survives
+(`write; close; reset` with a bloom-filtered column; the next file shows it when that column's
+dictionary stays empty) -/
+theorem reset_equiv_asIs_false_F26 :
+    ((observe asIs (resetWith asIs (history asIs cfgDict
+      [.write 2 [{ wrote ⟨⟨0, 1⟩, ⟨0, 2⟩, ⟨0, 1⟩, ⟨0, 2⟩, 6, 8, 6, 0, 0⟩ [1, 2] with bloomLength := 47 }],
+       .flush (.failed 4 [] 1)]))).cols.map (·.vol.bloomLength)) = [47] := by decide
+
 /-- the full-strength statement is false for the as-is mirror -/
 theorem reset_equiv_asIs_false :
     ¬ ∀ (cfg : Cfg) (ops : List Op),
@@ -117,12 +139,14 @@ theorem reset_equiv_asIs_false :
 
 /-- **reset_equiv_asIs_partial**: on the as-is mirror the property holds for histories in which no
 row group was committed (no Flush/Close that completed a row group) when, at the time of the
-Reset, the plain fallback buffers are empty and no column buffer has been allocated (so: for
-writers that were configured, closed empty, failed before buffering, ... but never held rows).
--- OPEN (false, see `reset_equiv_asIs_false`, `_F24`, `_F25`): the same without the hypotheses. -/
+Reset, the plain fallback buffers are empty, no column buffer has been allocated and no bloom
+filter length is recorded (so: for writers that were configured, closed empty, failed before
+buffering, ... but never held rows).
+-- OPEN (false, see `reset_equiv_asIs_false`, `_F24`, `_F25`, `_F26`): the same without the hypotheses. -/
 theorem reset_equiv_asIs_partial (cfg : Cfg) (ops : List Op)
     (hc : ∀ op ∈ ops, Op.commits op = false)
-    (hp : ∀ c ∈ (history asIs cfg ops).cols, c.vol.plainBuffered = [] ∧ c.vol.bufAllocated = false) :
+    (hp : ∀ c ∈ (history asIs cfg ops).cols,
+      c.vol.plainBuffered = [] ∧ c.vol.bufAllocated = false ∧ c.vol.bloomLength = 0) :
     observe asIs (resetWith asIs (history asIs cfg ops)) =
       observe asIs (initWith cfg (history asIs cfg ops).metadata) := by
   have h := run_invariant ops asIs asIs_good cfg (fun s => s.rowGroups = [])
@@ -132,14 +156,15 @@ theorem reset_equiv_asIs_partial (cfg : Cfg) (ops : List Op)
   have hs : stableOf (history asIs cfg ops) = stableOf (init cfg) := h.2.1
   have hok : AllOK (history asIs cfg ops) := h.2.2
   rw [observe_resetWith asIs _ (by rw [hr]; rfl)
-      (fun c hc => ⟨rfl, observed_resetAsIs c (hok c hc) (hp c hc).1 (hp c hc).2⟩),
+      (fun c hc => ⟨rfl, observed_resetAsIs c (hok c hc) (hp c hc).1 (hp c hc).2.1 (hp c hc).2.2⟩),
     observe_initWith, hs]
   rfl
 
 example : (∀ op ∈ [Op.write 2 [wrote ⟨⟨0, 1⟩, ⟨0, 1⟩, ⟨0, 1⟩, ⟨0, 1⟩, 2, 0, 2, 0, 0⟩ [1, 2]],
       .flush (.failed 40 [7] 1), .setKV [107] [118]], Op.commits op = false) ∧
     (∀ c ∈ (history asIs cfgA [Op.write 2 [wrote ⟨⟨0, 1⟩, ⟨0, 1⟩, ⟨0, 1⟩, ⟨0, 1⟩, 2, 0, 2, 0, 0⟩ [1, 2]],
-      .flush (.failed 40 [7] 1), .setKV [107] [118]]).cols, c.vol.plainBuffered = [] ∧ c.vol.bufAllocated = false) := by decide
+      .flush (.failed 40 [7] 1), .setKV [107] [118]]).cols,
+      c.vol.plainBuffered = [] ∧ c.vol.bufAllocated = false ∧ c.vol.bloomLength = 0) := by decide
 
 /-! ### key/value metadata -/
 
